@@ -107,6 +107,39 @@ func runFnCase(c *Ctx, m string, name string, args []*variants.Variant) {
 	} else {
 		c.count("fn-outcome:" + impl)
 	}
+	// the argument-count table of the property: a wrong count is WRONG_PARAM_COUNT and nothing else is
+	if canon != "" {
+		n := len(args)
+		okCount := true
+		switch canon {
+		case "Ticks", "Now", "Rnd", "Random", "E", "Pi", "Null":
+			okCount = n == 0
+		case "TimeSpan":
+			okCount = n == 1 || n == 3 || n == 4 || n == 5
+		case "Date":
+			okCount = n >= 1 && n <= 7
+		case "Min", "Max", "Sum":
+			okCount = n >= 2
+		case "If":
+			okCount = n == 3
+		case "Choose":
+			okCount = n >= 3 // (and the selector must address one of the alternatives: checked by the model)
+		case "Contains":
+			okCount = n == 2
+		case "Array":
+			okCount = true
+		default:
+			okCount = n == 1
+		}
+		if !okCount && impl != "err WRONG_PARAM_COUNT" {
+			c.fail(Failure{Kind: "oracle", Op: op, Impl: impl, Note: fmt.Sprintf("%s does not take %d argument(s): the call must fail with WRONG_PARAM_COUNT", canon, n)})
+			return
+		}
+		if okCount && impl == "err WRONG_PARAM_COUNT" && canon != "Choose" {
+			c.fail(Failure{Kind: "oracle", Op: op, Impl: impl, Note: fmt.Sprintf("%s takes %d argument(s) but the call failed with WRONG_PARAM_COUNT", canon, n)})
+			return
+		}
+	}
 	// clock / random: check the range here, compare symbolically with the model
 	if strings.HasPrefix(impl, "ok") {
 		switch canon {
@@ -304,6 +337,16 @@ func propC08(c *Ctx) {
 				runFnCase(c, "s", f, []*variants.Variant{a, b})
 			}
 			runFnCase(c, "u", f, []*variants.Variant{a, mixed[c.Rng.Intn(len(mixed))], mixed[c.Rng.Intn(len(mixed))]})
+		}
+	}
+	// every function with every argument count 0..8 (plain integer arguments): the exact arity table
+	for _, f := range fnNames {
+		for n := 0; n <= 8; n++ {
+			args := make([]*variants.Variant, n)
+			for i := range args {
+				args[i] = vInt(i + 1)
+			}
+			runFnCase(c, "u", f, args)
 		}
 	}
 	runFnCase(c, "u", "nosuchfunction", nil)
